@@ -140,6 +140,9 @@ def check_case(ctx, case):
                 ctx.violation("stale_variable_set", f"{what}: a node built during differentiation/simplification claims variables {bad['claimed']} but mentions {bad['actual']}: {bad['node']}")
                 del hooks.ST.vars_viol[nv0:]
             if got.kind != "obj":
+                if C.overflow_excusable(s, got):
+                    ctx.count("overflow_with_undefined_constant_part_unfiltered")
+                    continue
                 ctx.violation("as_expression_failed", f"{what}: as_expression() gave {got.brief()}")
                 continue
             Robj = got.value
